@@ -207,7 +207,28 @@ func (p *prover) eval0(v ssa.Value, b *ssa.BasicBlock, depth int) lin {
 		return p.eval(x.X, b, depth+1)
 	case *ssa.Call:
 		if bi, ok := x.Call.Value.(*ssa.Builtin); ok && bi.Name() == "len" {
-			return lin{base: lenRoot(x.Call.Args[0]), ok: true, nonneg: true}
+			root := lenRoot(x.Call.Args[0])
+			// what a Trim function of strings / bytes hands back is no longer than what it was given; a prefix x[:h]
+			// has length h
+			if tc, ok := root.(*ssa.Call); ok && len(tc.Call.Args) >= 1 && depth < 8 {
+				if f := tc.Call.StaticCallee(); f != nil && f.Pkg != nil && (f.Pkg.Pkg.Path() == "strings" || f.Pkg.Pkg.Path() == "bytes") && strings.HasPrefix(f.Name(), "Trim") {
+					inner := lenRoot(tc.Call.Args[0])
+					r := lin{base: inner, ok: true, nonneg: true}
+					if sl, ok := inner.(*ssa.Slice); ok && sl.Low == nil && sl.High != nil {
+						r = p.eval(sl.High, b, depth+1)
+					}
+					if r.ok {
+						r.nonneg = true
+						if r.base != nil {
+							r.lo = -inf
+						} else {
+							r.lo = 0
+						}
+						return r
+					}
+				}
+			}
+			return lin{base: root, ok: true, nonneg: true}
 		}
 	case *ssa.BinOp:
 		a := p.eval(x.X, b, depth+1)
@@ -1142,6 +1163,12 @@ func (p *prover) prove(s site) (bool, string) {
 		// a rewind counter J = phi(init, J-1) stays within [0, init]; J-1 behind J > 0 within [0, init-1]: bounded by
 		// what bounds init on the edge entering the loop (the length of a value does not change in between)
 		if depth < 3 {
+			// len(Trim…(x[:h], …)) ≤ h: bounded by what bounds h
+			if h := trimmedPrefixLen(v); h != nil {
+				if ok, _ := checkAt(h, strict, b, depth+1); ok {
+					return true, ""
+				}
+			}
 			if ph, ok := v.(*ssa.Phi); ok {
 				if i, ok := p.rewindCounter(ph); ok {
 					if init := p.eval(ph.Edges[i], ph.Block().Preds[i], 0); init.ok && (init.nonneg || init.lo >= 0) {
@@ -2023,4 +2050,25 @@ func reachingStore(ld *ssa.UnOp) ssa.Value {
 		return nil
 	}
 	return only.Val
+}
+
+// trimmedPrefixLen: v = len(T(x[:h], …)) with T a Trim function of strings / bytes — returns h.
+func trimmedPrefixLen(v ssa.Value) ssa.Value {
+	inner, ok := isLenOf(v)
+	if !ok {
+		return nil
+	}
+	tc, ok := lenRoot(inner).(*ssa.Call)
+	if !ok || len(tc.Call.Args) < 1 {
+		return nil
+	}
+	f := tc.Call.StaticCallee()
+	if f == nil || f.Pkg == nil || (f.Pkg.Pkg.Path() != "strings" && f.Pkg.Pkg.Path() != "bytes") || !strings.HasPrefix(f.Name(), "Trim") {
+		return nil
+	}
+	sl, ok := lenRoot(tc.Call.Args[0]).(*ssa.Slice)
+	if !ok || sl.Low != nil || sl.High == nil {
+		return nil
+	}
+	return sl.High
 }
